@@ -23,7 +23,7 @@ pub static DEF: PropDef = PropDef {
     level: "exploration",
     engine: "query",
     rule: "one run = a real Ingester whose shard (the id the ingester itself derives for the batches: tenant, metric hash, coarse time) has a split state in the DualWrite or Backfill phase, set through the real start_split / update_split_progress, on either catalog backend; 4..10 accepted batches of 1..5 rows with Int64 timestamps below / at / above the split point, several series per (timestamp, metric) differing in labels or value, and genuine exact duplicates; then 4..8 queries (projections with and without the key columns, count/sum/min/max, GROUP BY) through a real QueryNode while the split is active; routing oracle: ids in chunks under new shard A == accepted rows with ts < split, under B ts >= split, each once per accepted write; read oracle: answer == the same SQL on a MemTable of the accepted rows; distinct = distinct (dataset, query text) hash; non-trivial = completed AND rows fell on both sides of the split point",
-    quick_runs: 300,
+    quick_runs: 1000,
     thorough_runs: 8000,
     run_cap_ms: 120_000,
     scen,
